@@ -30,11 +30,11 @@ inductive Sample where
   | runStarted (n t : Nat)
   | runEvent (tr status : String) (n t : Nat)
 
-/-- The request went through the API glue, began in RUNNING and ended in ERROR without enter_ERROR ever
+/-- The request went through the API glue, began in a live state and ended in ERROR without enter_ERROR ever
     starting: the requested transition failed, the GO_ERROR that follows was itself cancelled by a
-    critical hook (before_GO_ERROR / leave_RUNNING), and the glue forced the state with `Sm.SetState("ERROR")`. -/
+    critical hook (before_GO_ERROR / leave_<state>), and the glue forced the state with `Sm.SetState("ERROR")`. -/
 def forcedError (q : Req) (before after : St) (seg : List IEv) : Bool :=
-  (match q with | .control .. => true | _ => false) && before == .RUNNING && after == .ERROR &&
+  (match q with | .control .. => true | _ => false) && before != .ERROR && after == .ERROR &&
     !seg.any (isMark (Moment.enter .ERROR).name false)
 
 /-- Flatten the trace into samples, keeping for hook samples the markers seen so far in their request. -/
@@ -107,8 +107,12 @@ def walk (strict : Bool) : RunCtx → List Sample → Bool
       (v.sosor == .val c.t0) &&
       -- (3) after a completed STOP the number is gone; otherwise it is still this run's
       (if stopped then v.rnVar == none && rn == 0 && v.lastRn == some c.n else (v.rnVar == some c.n)) &&
-      -- (6) however the run ended, both end stamps are set once the environment has left RUNNING
-      (!(before == .RUNNING && after != .RUNNING) || (!strict && forced) || (v.soeor.isVal && v.eoeor.isVal))
+      -- (6) however the run ended, both end stamps are set once the environment has left RUNNING — or has gone
+      -- to ERROR from any other live state: a run whose number and start stamp were published (STARTED) but
+      -- whose tasks never got to RUNNING (START_ACTIVITY cancelled after its before_ pass: the environment is
+      -- still CONFIGURED) is closed by the GO_ERROR that follows, through the same guarded writers
+      (!((before == .RUNNING && after != .RUNNING) || (before != .ERROR && after == .ERROR)) ||
+        (!strict && forced) || (v.soeor.isVal && v.eoeor.isVal))
      else true) &&
     walk strict (if c.active then { c with last := v, active := !stopped && c.active } else c) rest
 
